@@ -79,6 +79,9 @@ var (
 	mkLowGas = op{Kind: "create-empty-lowgas", From: "EA"}
 	// operations that make an OLVM transaction LOAD an account without changing it (zero-value transfer; the
 	// reverted / out-of-gas calls above do the same to the contract), and the native credit of that account
+	// a contract creation whose nonce is AHEAD of the account's (this chain accepts nonce gaps): the account nonce
+	// must still rise by exactly one
+	mkStoreGap = op{Kind: "create-store", From: "EA", Nonce: 2}
 	xferZeroEB = op{Kind: "transfer-zero", From: "EA", To: "EB"}
 	sendAEB    = op{Kind: "native-send", From: "A", To: "EB"}
 )
@@ -88,7 +91,7 @@ func singles() []event {
 	var out []event
 	out = append(out, event{})
 	for _, o := range []op{sendAB, sendAEA, sendAStore, xferEB, xferA, xferF, mkStore, mkKill, callOK, callRevert, callOOG, kill,
-		xferGap, xferLow, poorBelow, poorExact, wrongChain, resubmit} {
+		xferGap, xferLow, poorBelow, poorExact, wrongChain, resubmit, mkStoreGap} {
 		out = append(out, event{Ops: []op{o}})
 	}
 	return out
